@@ -20,7 +20,7 @@ pub struct Item {
     pub dump: String,
 }
 
-fn try_build(out: &mut Out, prop: &str, t: &Term) -> Option<MarkerTree> {
+pub fn try_build(out: &mut Out, prop: &str, t: &Term) -> Option<MarkerTree> {
     match catch_unwind(AssertUnwindSafe(|| t.build())) {
         Ok(m) => Some(m),
         Err(_) => {
@@ -687,6 +687,47 @@ pub fn run(out: &mut Out, tier: &str, seed: u64, prop: &str) {
                     out.oracle_fail("C03", &format!("law `{name}`: two construction paths of the same function give different markers"), serde_json::json!({"left": l.line(), "right": r.line(), "left_dump": dump(&x), "right_dump": dump(&y)}));
                 }
             }
+            // (2b) spellings of one comparison: every operator against its negated twin, the wildcard and `~=` forms
+            //      against their range forms, literals with and without trailing zero segments — identical markers
+            {
+                let lits = ["3.7", "3.7.0", "3.7.0.0", "3", "3.0", "3.0.0", "1.2.0.0", "3.10.2", "0", "0.0", "3.7.1", "2.0.1.0"];
+                let next = |l: &str| { let mut v: Vec<u64> = l.split('.').map(|x| x.parse().unwrap()).collect(); *v.last_mut().unwrap() += 1; v.iter().map(|x| x.to_string()).collect::<Vec<_>>().join(".") };
+                let prefix = |l: &str| { let v: Vec<&str> = l.split('.').collect(); v[..v.len() - 1].join(".") };
+                let mut laws: Vec<(String, Term, Term)> = Vec::new();
+                for k in 0..3usize {
+                    for l in lits {
+                        let v = |op: usize, t: &str| Term::V(k, op, t.to_string());
+                        laws.push((format!("!= is not =="), v(1, l), Term::not(v(0, l))));
+                        laws.push((format!("!= X.* is not == X.*"), v(8, l), Term::not(v(7, l))));
+                        laws.push((format!("<= is not >"), v(3, l), Term::not(v(4, l))));
+                        laws.push((format!("< is not >="), v(2, l), Term::not(v(5, l))));
+                        let m = lits[(l.len() * 7 + k) % lits.len()];
+                        laws.push((format!("not in is not in"), Term::VI(k, true, vec![l.to_string(), m.to_string()]), Term::not(Term::VI(k, false, vec![l.to_string(), m.to_string()]))));
+                        for op in 0..6 { laws.push((format!("a trailing zero segment does not matter ({})", VOPS[op].1), v(op, l), v(op, &format!("{l}.0")))); }
+                        if k < 2 {
+                            laws.push((format!("== X.* is the prefix range"), v(7, l), Term::and(v(5, l), v(2, &next(l)))));
+                            laws.push((format!("in is the disjunction of =="), Term::VI(k, false, vec![l.to_string(), m.to_string()]), Term::or(v(0, l), v(0, m))));
+                            if l.contains('.') { laws.push((format!("~= X.Y is >= X.Y and == X.*"), v(6, l), Term::and(v(5, l), v(7, &prefix(l))))); }
+                        }
+                    }
+                }
+                for k in [1usize, 2, 12] {
+                    for val in ["posix", "", "a b", "it's"] {
+                        let sv = |op: usize| Term::S(k, op, val.to_string());
+                        for (a, b, name) in [(1usize, 0usize, "!= is not == (strings)"), (5, 2, "<= is not > (strings)"), (4, 3, "< is not >= (strings)"), (7, 6, "not in is not in (strings)"), (9, 8, "not contains is not contains")] {
+                            laws.push((name.to_string(), sv(a), Term::not(sv(b))));
+                        }
+                    }
+                }
+                for (name, l, r) in &laws {
+                    out.evaluations += 1;
+                    let (Some(x), Some(y)) = (try_build(out, "C03", l), try_build(out, "C03", r)) else { return };
+                    out.stat("c03.spelling_laws");
+                    if x != y || hash_of(&x) != hash_of(&y) {
+                        out.oracle_fail("C03", &format!("law `{name}`: two spellings of the same condition give different markers"), serde_json::json!({"left": l.line(), "right": r.line(), "left_dump": dump(&x), "right_dump": dump(&y)}));
+                    }
+                }
+            }
             // (3) exhaustive truth tables over the joint abstract grid of small groups
             let groups = if big { 400 } else { 80 };
             for _ in 0..groups {
@@ -759,6 +800,25 @@ pub fn run(out: &mut Out, tier: &str, seed: u64, prop: &str) {
                         let member = valid.as_ref().map(|v| env.extras().contains(v)).unwrap_or(false);
                         if env.eval(&m) != (member != neg) {
                             out.oracle_fail("C11", "extra ==/!= does not mean normalized-name membership", serde_json::json!({"extra": e, "neg": neg, "active": active}));
+                        }
+                        // … through every entry point that takes extras (an atom on `extra` alone depends on nothing else)
+                        let ex = env.extras();
+                        let set: std::collections::HashSet<ExtraName> = ex.iter().cloned().collect();
+                        let pys = [Version::from_str("3.8").unwrap()];
+                        let req = pep508_rs::Requirement::<pep508_rs::VerbatimUrl> { name: pep508_rs::PackageName::from_str("n").unwrap(), extras: vec![], version_or_url: None, marker: m.clone(), origin: None };
+                        for (name, got) in [
+                            ("evaluate_extras", m.evaluate_extras(&ex)),
+                            ("evaluate_optional_environment(None)", m.evaluate_optional_environment(None, &ex)),
+                            ("evaluate_optional_environment(Some)", m.evaluate_optional_environment(Some(&env.env()), &ex)),
+                            ("evaluate_extras_and_python_version", m.evaluate_extras_and_python_version(&set, &pys)),
+                            ("evaluate_collect_warnings", m.evaluate_collect_warnings(&env.env(), &ex).0),
+                            ("Requirement::evaluate_markers", req.evaluate_markers(&env.env(), &ex)),
+                            ("Requirement::evaluate_extras_and_python_version", req.evaluate_extras_and_python_version(&set, &pys)),
+                        ] {
+                            out.evaluations += 1;
+                            if got != (member != neg) {
+                                out.oracle_fail("C11", &format!("{name}: extra ==/!= does not mean normalized-name membership"), serde_json::json!({"extra": e, "neg": neg, "active": active, "entry_point": name}));
+                            }
                         }
                     }
                 }
